@@ -544,7 +544,10 @@ def handleFea : Handler := fun s =>
         let (b, ids) := feaCompile src.explicit (groups.map (·.2))
         let own := recs.filter fun p => p.1.id < 256 + delta && !(src.explicit.any fun e => e.1 ≤ 255 && e.1 == p.1.id && e.2.lang == p.1.lang)
         let shift := feaShift own
-        let corrIds := (groups.zip ids).all fun ((r, _), id) => fontId r == some (shift id)
+        -- fea-rs output.rs:127-151 remaps stylistic-set and character-variant parameters only: the `size` menu name id
+        -- keeps its unshifted value (literal model of the current code; the oracle reports it as size-name-missing)
+        let refShift (r : Ref) (id : Nat) : Nat := if r == Ref.size then feaShiftSize own id else shift id
+        let corrIds := (groups.zip ids).all fun ((r, _), id) => fontId r == some (refShift r id)
         let corrRecs := sameTable (mergeNames own (feaRecordsShifted own b)) recs
         let corrElided := match src.stat, fStat with
           | some st, some fs =>
